@@ -986,6 +986,9 @@ type realChunk struct {
 	Entry   string
 	Static  []string // keys of bit sets
 	Dynamic []string
+	// static imports that carry nothing but runtime helpers (__esm, __commonJS, __toESM, ...): the runtime file is
+	// outside the alphabet of the specification, so such an edge is compared only if the specification has it too
+	HelperStatic []string
 }
 
 func (c *gcase) comparePartition(d *ldData) (diff []string, shared int) {
@@ -1037,6 +1040,23 @@ func (c *gcase) comparePartition(d *ldData) (diff []string, shared int) {
 			helperOnly[i] = true
 		}
 	}
+	// does chunk ch import from chunk `from` symbols of non-user files (the runtime) only?
+	helperEdge := func(ch ldChunk, from int) bool {
+		n := 0
+		for _, f := range ch.ImportsFrom {
+			if f.Chunk != from {
+				continue
+			}
+			for _, a := range f.Aliases {
+				x, ok := d.Chunks[from].Exports[a]
+				if !ok || user[nameOf[x.File]] {
+					return false
+				}
+				n++
+			}
+		}
+		return n > 0
+	}
 	real := map[string]realChunk{}
 	for ci, ch := range d.Chunks {
 		if helperOnly[ci] {
@@ -1067,6 +1087,8 @@ func (c *gcase) comparePartition(d *ldData) (diff []string, shared int) {
 			}
 			if imp.Kind == 3 {
 				rc.Dynamic = append(rc.Dynamic, k)
+			} else if helperEdge(ch, imp.Chunk) {
+				rc.HelperStatic = append(rc.HelperStatic, k)
 			} else {
 				rc.Static = append(rc.Static, k)
 			}
@@ -1096,8 +1118,16 @@ func (c *gcase) comparePartition(d *ldData) (diff []string, shared int) {
 		for _, s := range w.Dynamic {
 			wd = append(wd, setKey(s))
 		}
-		if strings.Join(sortedCopy(r.Static), ";") != strings.Join(sortedCopy(ws), ";") {
-			diff = append(diff, fmt.Sprintf("chunk {%s}: static imports %v, spec %v", k, sortedCopy(r.Static), sortedCopy(ws)))
+		rs := append([]string{}, r.Static...)
+		for _, h := range r.HelperStatic {
+			for _, x := range ws {
+				if x == h {
+					rs = append(rs, h)
+				}
+			}
+		}
+		if strings.Join(sortedCopy(rs), ";") != strings.Join(sortedCopy(ws), ";") {
+			diff = append(diff, fmt.Sprintf("chunk {%s}: static imports %v, spec %v", k, sortedCopy(rs), sortedCopy(ws)))
 		}
 		if strings.Join(sortedCopy(r.Dynamic), ";") != strings.Join(sortedCopy(wd), ";") {
 			diff = append(diff, fmt.Sprintf("chunk {%s}: dynamic imports %v, spec %v", k, sortedCopy(r.Dynamic), sortedCopy(wd)))
